@@ -250,7 +250,7 @@ impl C11 {
             // host-side operations that must be invisible (twin A never sees them)
             if steps % 7 == 3 {
                 let mut prng = Rng::derive(k, steps, 0x9e77);
-                if let Some(d) = perturb(&mut b, &mut prng, &Perturb { areas: false, hooks: true, clone: true }) {
+                if let Some(d) = perturb(&mut b, &mut prng, &Perturb { areas: false, hooks: true, clone: true, decoy: 0 }) {
                     return fail(col, "neutral-operation-visible", d);
                 }
             }
